@@ -826,3 +826,178 @@ func streamTrie(o opts) {
 	m.Traces, m.Ops = w.traces, w.ops
 	m.write(o.out)
 }
+
+// Stream "index" (C15, interleavings): the path index against the backing cache under stores,
+// invalidations, evictions and late removal notifications, through the split-store hooks.
+func streamIndex(o opts) {
+	r := newRand(o.seed, "index")
+	m := newMeta("index", o.seed)
+	m.Rule = "deterministic interleavings of store (index step, cache step), Invalidate, InvalidateByFunc, Clear, direct removals and notification delivery on the real middleware (distinct keys concurrently; same-key overlap only in the known-finding probe), plus a late-notification probe through a blocking PathExtractor and free-running requests with evictions; at every quiescent point the keys reachable through the index must equal the cached keys that have a path; non-trivial = round with a removal whose notification is delivered after the key was re-cached; distinct by scenario parameters"
+	newMW := func(maxSize int64, extractor func(string) string) *httpcache.Middleware {
+		cfg := httpcache.Config{MaxSize: maxSize, ShardCount: 1, EvictionPolicy: kioshun.LRU, DefaultTTL: time.Hour, DisableCleanup: true, PathExtractor: extractor}
+		mw, err := httpcache.New(cfg)
+		must(err)
+		mw.SetKeyGenerator(httpcache.KeyWithoutQuery())
+		return mw
+	}
+	quiescentCheck := func(mw *httpcache.Middleware, ctx string) {
+		for i := 0; i < 50; i++ {
+			mw.VerifFlushRemovals()
+			time.Sleep(100 * time.Microsecond)
+		}
+		cached := map[string]bool{}
+		for _, k := range mw.VerifCachedKeys() {
+			if httpcache.PathExtractorFromKey(k) != "" {
+				cached[k] = true
+			}
+		}
+		indexed := map[string]bool{}
+		for _, k := range mw.VerifIndexKeys() {
+			indexed[k] = true
+		}
+		for k := range cached {
+			if !indexed[k] {
+				m.violate("C15", fmt.Sprintf("%s: key %q is cached but not reachable through the path index (Invalidate would miss it)", ctx, k), ctx)
+				return
+			}
+		}
+		for k := range indexed {
+			if !cached[k] {
+				m.violate("C15", fmt.Sprintf("%s: key %q is in the path index but not cached (stale index entry)", ctx, k), ctx)
+				return
+			}
+		}
+	}
+	for round := 0; round < o.n; round++ {
+		// (a) sequential + interleaved stores on distinct keys, removals, invalidations
+		mw := newMW(pick(r, []int64{3, 8, 1000}), httpcache.PathExtractorFromKey)
+		ctx := fmt.Sprintf("index round %d", round)
+		paths := []string{"/a", "/a/b", "/a/b/c", "/x", "/x/y", "/"}
+		pending := map[string]*httpcache.Response{}
+		for i := 0; i < 60; i++ {
+			key := "GET:" + pick(r, paths)
+			switch r.Intn(8) {
+			case 0, 1:
+				if _, busy := pending[key]; !busy {
+					resp := &httpcache.Response{StatusCode: 200 + i}
+					mw.VerifStoreIndex(key, resp)
+					pending[key] = resp
+				}
+			case 2, 3:
+				if resp, busy := pending[key]; busy {
+					mw.VerifStoreSet(key, resp, time.Hour)
+					delete(pending, key)
+				}
+			case 4:
+				if _, busy := pending[key]; !busy {
+					mw.VerifDeleteKey(key)
+				}
+			case 5:
+				pat := pick(r, []string{"/a", "/a/*", "/x/*", "/*", "/a/b/", "//a//b"})
+				busy := false
+				for k := range pending {
+					_ = k
+					busy = true
+				}
+				if !busy {
+					n := mw.Invalidate(pat)
+					_ = n
+					mw.VerifFlushRemovals()
+					for _, k := range mw.VerifCachedKeys() {
+						p := httpcache.PathExtractorFromKey(k)
+						base := strings.TrimSuffix(pat, "*")
+						nb := "/" + strings.Join(strings.FieldsFunc(base, func(c rune) bool { return c == '/' }), "/")
+						np := "/" + strings.Join(strings.FieldsFunc(p, func(c rune) bool { return c == '/' }), "/")
+						match := np == nb
+						if strings.HasSuffix(pat, "*") {
+							match = np == nb || strings.HasPrefix(np, strings.TrimSuffix(nb, "/")+"/") || nb == "/"
+						}
+						if match {
+							m.violate("C15", fmt.Sprintf("%s: after Invalidate(%q) returned, %q is still cached", ctx, pat, k), ctx)
+						}
+					}
+				}
+			case 6:
+				mw.VerifFlushRemovals()
+			case 7:
+				if len(pending) == 0 && r.Intn(4) == 0 {
+					mw.Clear()
+				}
+			}
+		}
+		for key, resp := range pending {
+			mw.VerifStoreSet(key, resp, time.Hour)
+		}
+		quiescentCheck(mw, ctx)
+		mw.Close()
+		m.count("interleaving_rounds")
+
+		// (b) late notification: remove, keep the notifier parked, re-cache through a real request, release
+		var gate sync.Mutex
+		block := false
+		inReq := false
+		release := make(chan struct{})
+		ext := func(key string) string {
+			gate.Lock()
+			b := block && !inReq
+			gate.Unlock()
+			if b {
+				<-release
+			}
+			return httpcache.PathExtractorFromKey(key)
+		}
+		mw2 := newMW(1000, ext)
+		calls := 0
+		h := mw2.Wrap(http.HandlerFunc(func(w http.ResponseWriter, rq *http.Request) { calls++; fmt.Fprintf(w, "v%d", calls) }))
+		do := func() string {
+			gate.Lock()
+			inReq = true
+			gate.Unlock()
+			rec := httptest.NewRecorder()
+			h.ServeHTTP(rec, httptest.NewRequest("GET", "/page", nil))
+			gate.Lock()
+			inReq = false
+			gate.Unlock()
+			return rec.Header().Get("X-Cache")
+		}
+		do()
+		gate.Lock()
+		block = true
+		gate.Unlock()
+		mw2.VerifDeleteKey("GET:/page") // removal staged; the notifier parks inside the extractor
+		time.Sleep(2 * time.Millisecond)
+		do() // miss: re-cached with a new identity while the old notification is still in flight
+		gate.Lock()
+		block = false
+		gate.Unlock()
+		close(release)
+		time.Sleep(2 * time.Millisecond)
+		quiescentCheck(mw2, ctx+" late notification")
+		if n := mw2.Invalidate("/page"); n != 1 {
+			m.violate("C15", fmt.Sprintf("%s: after a late removal notification Invalidate(/page) removed %d entries, the re-cached response stays served", ctx, n), ctx)
+		}
+		mw2.Close()
+		m.nontrivial(fmt.Sprintf("late/%d", round%20))
+	}
+	// known finding F5: overlapping stores of one key
+	{
+		mw := newMW(1000, httpcache.PathExtractorFromKey)
+		key := "GET:/p"
+		r1, r2 := &httpcache.Response{StatusCode: 201}, &httpcache.Response{StatusCode: 202}
+		mw.VerifStoreIndex(key, r1)
+		mw.VerifStoreIndex(key, r2)
+		mw.VerifStoreSet(key, r2, time.Hour)
+		mw.VerifDeleteKey(key)
+		mw.VerifFlushRemovals()
+		mw.VerifStoreSet(key, r1, time.Hour)
+		mw.VerifFlushRemovals()
+		_, _, cached := mw.VerifPeek(key)
+		if n := mw.Invalidate("/p"); cached && n == 0 {
+			m.known("KNOWN-FINDING: property=C15 overlapping stores of one key (index r1, index r2, Set r2, r2 removed and notified, Set r1) leave the key cached but unknown to the path index: Invalidate(/p) returns 0 and the response keeps being served")
+		}
+		mw.Close()
+	}
+	m.Traces, m.Ops = o.n, o.n*62
+	m.sample("index r1, index r2, Set r2, delete, notify, Set r1 -> Invalidate returns 0 (known finding F5)")
+	m.write(o.out)
+}
